@@ -6,6 +6,8 @@
 #![allow(dead_code, unused_imports)]
 include!(concat!(env!("OUT_DIR"), "/mods.rs"));
 
+static LAST_PANIC: std::sync::Mutex<String> = std::sync::Mutex::new(String::new());
+
 fn main() {
     let args: Vec<String> = std::env::args().collect();
     if args.len() < 2 { eprintln!("usage: vh <prop> --seed S --n N --out FILE"); std::process::exit(2); }
@@ -22,9 +24,16 @@ fn main() {
     }
     if prop == "dispdbg" { c05::debug_scenario(seed, n); return; }
     // panics are caught per case; keep stderr quiet
-    std::panic::set_hook(Box::new(|_| {}));
+    // (the message of the last panic is kept so that a panic of the harness ITSELF can be reported)
+    std::panic::set_hook(Box::new(|info| {
+        if let Ok(mut g) = LAST_PANIC.lock() { *g = format!("{}", info).chars().take(600).collect(); }
+    }));
     let mut sink = util::Sink::create(&out);
-    if !dispatch(&prop, seed, n, &mut sink) { eprintln!("unknown property {}", prop); std::process::exit(2); }
+    let known = match std::panic::catch_unwind(std::panic::AssertUnwindSafe(|| dispatch(&prop, seed, n, &mut sink))) {
+        Ok(k) => k,
+        Err(_) => { eprintln!("the harness itself panicked: {}", LAST_PANIC.lock().map(|g| g.clone()).unwrap_or_default()); std::process::exit(3); }
+    };
+    if !known { eprintln!("unknown property {}", prop); std::process::exit(2); }
     let n = sink.n;
     sink.finish();
     println!("cases {}", n);
